@@ -212,7 +212,9 @@ class PolarsColumnSetDefault(_PlCore):
     """
 
     target = f"{COLP}.set_default"
-    split = {"dtype": ["float", "other"], "default": ["value", "none"]}
+    # declared: Column(dtype, default=v) / Column(default=v) - a column need not declare a dtype (C06: no internal exception for it)
+    split = {"dtype": ["float", "other"], "default": ["value", "none"], "declared": ["dtype", "no_dtype"]}
+    raises = ()
 
     def make_args(self):
         from pandera.dtypes import DataType
@@ -220,7 +222,7 @@ class PolarsColumnSetDefault(_PlCore):
         a = super().make_args()
         v = core.sym_real("default") if self.fixed.get("default", "value") == "value" else None
         core.register_model_var("default", v.z) if v is not None else None
-        dt = T.Ref(DataType, type=T.Any).fresh("schema.dtype")
+        dt = T.Ref(DataType, type=T.Any).fresh("schema.dtype") if self.fixed.get("declared", "dtype") == "dtype" else None
         a["schema"] = T.Ref(None, default=T.Const(v), selector=T.Const("a"), name=T.Const("a"), dtype=T.Const(dt)).fresh("schema")
         cur().ghost["default"] = v
         return a
